@@ -17,12 +17,47 @@ def _member(e, name):
     return e.get("kind") == "MemberExpr" and e.get("name") == name
 
 
+DECISION_FIELDS = ("cons", "is_short", "is_long")
+
+
 class Rel8Domain:
-    def __init__(self, prog):
+    def __init__(self, prog, parent=None):
         self.prog = prog
-        self.at_site = []       # (node, state)
+        self.at_site = parent.at_site if parent else []       # (node, state)
         self.at_exit = []       # (successful return, state)
         self.ce = ConstEval(prog)
+        self.inlined = parent is not None
+        self.rets = {}          # inlined helper: return constant (None = not constant) -> state
+        self.callres = {}       # id(call node) -> {return constant: state}
+        self.depth = parent.depth + 1 if parent else 0
+
+    def _decides(self, name):
+        """a helper of the line parser that takes the record and reads the decision fields: interpreted in place"""
+        lib = self.prog.lib_functions()
+        if name not in lib or self.depth >= 3:
+            return False
+        f = lib[name]
+        if not any("struct instr *" in (p.get("type", {}).get("qualType", "")) for p in self.prog.params(f)):
+            return False
+        reads = set()
+        for m in walk(self.prog.body(f)):
+            if m.get("kind") == "MemberExpr" and m.get("name") in DECISION_FIELDS:
+                reads.add(m["name"])
+        # the tokeniser also touches these fields, but it is what gives them their (arbitrary) initial values
+        calls_tok = any(c.get("kind") == "CallExpr" and callee_name(c) in ("strtok_r", "strtoul") for c in walk(self.prog.body(f)))
+        return "cons" in reads and ("is_short" in reads or "is_long" in reads) and not calls_tok
+
+    def _inline(self, call, s):
+        sub = Rel8Domain(self.prog, parent=self)
+        f = self.prog.fn(callee_name(call))
+        end = Flow(sub).function(self.prog, f, s)
+        if end is not None:
+            sub.rets[None] = sub.rets[None] | end if None in sub.rets else end
+        self.callres[id(call)] = sub.rets
+        out = None
+        for st in sub.rets.values():
+            out = st if out is None else out | st
+        return out
 
     def copy(self, s): return s
     def join(self, a, b): return a | b
@@ -39,6 +74,12 @@ class Rel8Domain:
         if not e0 or s is None:
             return s
         k, ks = e0.get("kind"), kids(e0)
+        if k == "CallExpr" and self._decides(callee_name(e0)):
+            for a in call_args(e0):
+                s = self.eval(a, s)
+                if s is None:
+                    return None
+            return self._inline(e0, s)
         if k in ("BinaryOperator", "CompoundAssignOperator") and e0.get("opcode", "").endswith("=") and \
                 e0.get("opcode") not in ("==", "!=", "<=", ">="):
             l = strip(ks[0], casts=True)
@@ -71,6 +112,12 @@ class Rel8Domain:
     def assume(self, e, truth, s):
         e0 = strip(e)
         k = e0.get("kind")
+        if k == "CallExpr" and id(e0) in self.callres:
+            out = None
+            for c, st in self.callres[id(e0)].items():
+                if c is None or bool(c) == truth:
+                    out = st if out is None else out | st
+            return out or None
         if k == "MemberExpr" and e0.get("name") == "imm" and not truth:
             # no immediate operand: the constant field still holds its zero initialiser
             out = frozenset((0, 0, sh, lg, cf) for (lo, hi, sh, lg, cf) in s if lo <= 0)
@@ -128,7 +175,11 @@ class Rel8Domain:
         return [(lo, hi)]
 
     def ret(self, n, s):
-        if kids(n) and self.ce.try_eval(strip(kids(n)[0], casts=True)) == 0:
+        c = self.ce.try_eval(strip(kids(n)[0], casts=True)) if kids(n) else None
+        if self.inlined:
+            self.rets[c] = self.rets[c] | s if c in self.rets else s
+            return
+        if kids(n) and c == 0:
             self.at_exit.append((n, s))
 
 
